@@ -21,7 +21,7 @@ from ..digest import chunk_state_digest, obj_digest
 TITLE = 'diagnostic plot total and side-effect free'
 EXPLORER = 'E2'
 CLAUSES = ['C20.no_exception', 'C20.chunk_untouched', 'C20.rcparams', 'C20.figures', 'C20.files', 'C20.vv_chunk', 'C20.many_sets',
-           'C20.many_ceilos', 'C20.no_hits', 'C20.zero_okta_layers', 'C20.second_call_in_process']
+           'C20.many_ceilos', 'C20.no_hits', 'C20.zero_okta_layers', 'C20.second_call_in_process', 'C20.other_chunk_before', 'C20.index_gaps']
 RULE = ('one case per chunk of the pool; call menu = upto {raw_data,slices,groups,layers} x show_ceilos {F,T} x reference METAR {none, given} x '
         'save {none, "png", ["png"], ["png","pdf"]} (quick: a 24-call sub-menu); BFS over call sequences with the state digest (rcParams, open '
         'figures, chunk, directory): depth 1 = every call from the clean state, depth 2 = every call from every NEW state (none when all calls are '
@@ -82,8 +82,33 @@ def bound(tier):
         len(pool(tier)), len(call_menu(tier)), len(PAIR_MENU) ** 2)
 
 
+CROSS_CALLS = [
+    {'upto': 'raw_data', 'show_ceilos': True, 'ref': None, 'save': None},
+    {'upto': 'raw_data', 'show_ceilos': False, 'ref': None, 'save': None},
+    {'upto': 'layers', 'show_ceilos': False, 'ref': None, 'save': 'png'},
+    {'upto': 'groups', 'show_ceilos': True, 'ref': ('OVC010', 'x'), 'save': None},
+]
+
+
+def cross_pool():
+    """Chunks of ONE site (same geoloc) that differ in ceilometer names / counts / index gaps: plotted one after the other in one process."""
+    rows = lambda names, h: [[n, 0.0 - 15. * i, h + 10 * k, 1] for k, n in enumerate(names) for i in range(4)]
+    D = _deckfam.D
+    return [
+        ('site-x12', {'gen': 'rows', 'rows': rows(['X-1', 'X-2'], 1000.)}, {}),
+        ('site-x13', {'gen': 'rows', 'rows': rows(['X-1', 'X-3'], 2000.)}, {}),
+        ('site-x11ceilos', {'gen': 'rows', 'rows': rows(['c%02d' % k for k in range(11)], 1500.)}, {}),
+        ('site-msa-gaps', D({'h': 1000., 'n': 20, 'pattern': 'rampup'}, {'h': 1210., 'n': 20, 'pattern': 'rampup'}, {'h': 9000., 'n': 8, 'where': 'first'},
+                            T=20, ceilos=['X-1', 'X-9']), {'MSA': 3000, 'MSA_HIT_BUFFER': 0}),
+    ]
+
+
 def cases(tier):
-    return [{'name': n, 'scene': s, 'prms': p, 'tier': tier} for n, s, p in pool(tier)]
+    out = [{'name': n, 'scene': s, 'prms': p, 'tier': tier} for n, s, p in pool(tier)]
+    n = len(cross_pool())
+    for first in range(n):
+        out.append({'cross': True, 'first': first, 'name': 'cross-%d' % first, 'scene': {}, 'prms': {}, 'tier': tier})
+    return out
 
 
 def weight(case):
@@ -107,6 +132,8 @@ def run_case(case):
     def hit(c):
         cl[c] = cl.get(c, 0) + 1
 
+    if case.get('cross'):
+        return cross_case(case)
     rows = scenes.build(case['scene'])
     with warnings.catch_warnings():
         warnings.simplefilter('ignore')
@@ -216,6 +243,88 @@ def run_case(case):
         res['digests'] = sorted(seen) + [case['name'] + m['upto'] for m in menu[:4]]
         res['sample'] = {'chunk': case['name'], 'msg': chunk.metar_msg(), 'sets': [len(chunk.slices), len(chunk.groups), len(chunk.layers)],
                          'ceilos': len(chunk.ceilos), 'calls': res['n'], 'closed': res['closed']}
+    finally:
+        shutil.rmtree(tmpd, ignore_errors=True)
+        plt.close('all')
+    return res
+
+
+def cross_case(case):
+    """All ordered pairs (chunk_i, call) -> (chunk_j, call) over chunks of one site, executed back to back in this process."""
+    import matplotlib
+    matplotlib.use('Agg')
+    import matplotlib.pyplot as plt
+    import ampycloud
+    from ampycloud.plots import diagnostic
+    res = {'n': 0, 'clauses': {}, 'digests': set(), 'violations': [], 'extra': {'states': 0, 'transitions': 0, 'traces': 0}}
+
+    def hit(c):
+        res['clauses'][c] = res['clauses'].get(c, 0) + 1
+
+    chunks = []
+    with warnings.catch_warnings():
+        warnings.simplefilter('ignore')
+        for name, spec, prms in cross_pool():
+            chunks.append((name, ampycloud.run(scenes.frame(scenes.build(spec)), prms=copy.deepcopy(prms) or None, geoloc='Site X', ref_dt='2020-01-01')))
+    tmpd = tempfile.mkdtemp(prefix='mc_c20x_')
+
+    def one(ci, m, hist):
+        name, chunk = chunks[ci]
+        for fn in os.listdir(tmpd):
+            os.remove(os.path.join(tmpd, fn))
+        rc0, ch0 = rc_snapshot(), chunk_state_digest(chunk)
+        kw = dict(upto=m['upto'], show_ceilos=m['show_ceilos'], show=False, save_stem=os.path.join(tmpd, 'p') if m['save'] else None)
+        if m['save']:
+            kw['save_fmts'] = m['save']
+        if m['ref']:
+            kw['ref_metar'], kw['ref_metar_origin'] = m['ref']
+        bad = []
+        try:
+            with warnings.catch_warnings():
+                warnings.simplefilter('ignore')
+                diagnostic(chunk, **kw)
+        except Exception as e:
+            bad.append(('C20.no_exception', {'raised': f'{type(e).__name__}: {str(e)[:200]}', 'at': pipeline.innermost_ampycloud_frame(e.__traceback__)}))
+        res['n'] += 1
+        res['extra']['transitions'] += 1
+        for c in ('C20.no_exception', 'C20.chunk_untouched', 'C20.rcparams', 'C20.figures', 'C20.files'):
+            hit(c)
+        if hist:
+            hit('C20.other_chunk_before'); hit('C20.second_call_in_process')
+        if len(chunk.data) and list(chunk.data.index) != list(range(len(chunk.data))):
+            hit('C20.index_gaps')
+        if chunk_state_digest(chunk) != ch0:
+            bad.append(('C20.chunk_untouched', {}))
+        if rc_snapshot() != rc0:
+            bad.append(('C20.rcparams', {}))
+        if plt.get_fignums():
+            bad.append(('C20.figures', {'open_figures': list(plt.get_fignums())}))
+            plt.close('all')
+        want = ['p.' + m['save']] if m['save'] else []
+        if sorted(os.listdir(tmpd)) != want and not bad:
+            bad.append(('C20.files', {'written': sorted(os.listdir(tmpd)), 'requested': want}))
+        for clause, detail in bad:
+            if len(res['violations']) < 20:
+                res['violations'].append({'clause': clause, 'site': detail.get('at', m['upto']),
+                                          'detail': {'chunk': name, 'call': m, 'after': hist, **detail},
+                                          'sub': {**{k: v for k, v in case.items() if k != 'only_pair'}, 'only_pair': hist_ids + [[ci, CROSS_CALLS.index(m)]]}})
+    try:
+        pairs = []
+        for m1 in CROSS_CALLS:
+            for cj in range(len(chunks)):
+                for m2 in CROSS_CALLS:
+                    pairs.append([[case['first'], CROSS_CALLS.index(m1)], [cj, CROSS_CALLS.index(m2)]])
+        if 'only_pair' in case:
+            pairs = [case['only_pair']]
+        for pr in pairs:
+            hist_ids = []
+            for (ci, mi) in pr:
+                one(ci, CROSS_CALLS[mi], [f'{chunks[a][0]}:{CROSS_CALLS[b]["upto"]}:{CROSS_CALLS[b]["show_ceilos"]}' for a, b in hist_ids])
+                hist_ids = hist_ids + [[ci, mi]]
+            res['extra']['traces'] += 1
+        res['extra']['states'] = 1
+        res['digests'] = [f'cross{case["first"]}:{i}' for i in range(min(len(pairs), 40))]
+        res['sample'] = {'cross_first_chunk': chunks[case['first']][0], 'pairs': len(pairs)}
     finally:
         shutil.rmtree(tmpd, ignore_errors=True)
         plt.close('all')
